@@ -54,6 +54,7 @@ type snap struct {
 	finished              bool
 	afterGenesis, early   bool
 	key                   string
+	skey                  string // like key, but push payloads inside Scripts are not part of it
 }
 
 type event struct {
@@ -107,17 +108,25 @@ func takeSnap(s *interpreter.State) *snap {
 	h = hashStack(h, 'S', n.saved)
 	var sb strings.Builder
 	fmt.Fprintf(&sb, "stacks#%x D=%d A=%d E=%d S=%d C%v pc=%d:%d sep=%d ops=%d fl=%x fin=%v g=%v/%v scripts=%d:", h, len(n.data), len(n.alt), len(n.els), len(n.saved), n.cond, n.scriptIdx, n.opIdx, n.lastSep, n.numOps, n.flags, n.finished, n.afterGenesis, n.early, len(n.scripts))
+	base := sb.String()
+	var sk strings.Builder
 	for _, ops := range n.scripts {
 		h := uint64(14695981039346656037)
+		h2 := h
 		for _, op := range ops {
 			h = (h ^ uint64(op.val)) * 1099511628211
 			h = (h ^ uint64(uint32(op.len))) * 1099511628211
+			h2 = (h2 ^ uint64(op.val)) * 1099511628211
+			h2 = (h2 ^ uint64(uint32(op.len))) * 1099511628211
+			h2 = (h2 ^ uint64(len(op.data))) * 1099511628211
 			h = kernel.FNV64b(h, op.data)
 			h = (h ^ 0xff) * 1099511628211
 		}
 		fmt.Fprintf(&sb, "%d/%x,", len(ops), h)
+		fmt.Fprintf(&sk, "%d/%x,", len(ops), h2)
 	}
 	n.key = sb.String()
+	n.skey = base + sk.String()
 	return n
 }
 
@@ -228,6 +237,24 @@ type recorder struct {
 	max       int
 	volume    int // bytes of snapshot data seen so far
 	maxVolume int
+	keep      bool                 // retain the *State objects handed to BeforeStep (for resume runs)
+	states    []*interpreter.State // aligned with events (nil where not kept)
+}
+
+// cloneState deep-copies a State through its exported fields (ParsedOpcode values are copied whole).
+func cloneState(s *interpreter.State) *interpreter.State {
+	n := *s
+	n.DataStack, n.AltStack, n.ElseStack, n.SavedFirstStack = copyStack(s.DataStack), copyStack(s.AltStack), copyStack(s.ElseStack), copyStack(s.SavedFirstStack)
+	n.CondStack = append([]int{}, s.CondStack...)
+	n.Scripts = make([]interpreter.ParsedScript, len(s.Scripts))
+	for i, ps := range s.Scripts {
+		n.Scripts[i] = append(interpreter.ParsedScript{}, ps...)
+		for j := range n.Scripts[i] {
+			// push payloads alias the executing script buffer (some opcodes rewrite them in place): keep our own copy
+			n.Scripts[i][j].Data = append([]byte(nil), n.Scripts[i][j].Data...)
+		}
+	}
+	return &n
 }
 
 // errTooBig is the panic value when observing a run would copy too much data.
@@ -251,6 +278,13 @@ func (r *recorder) rec(kind evKind, st *interpreter.State, arg []byte, err error
 		e.arg = append([]byte{}, arg...)
 	}
 	r.events = append(r.events, e)
+	if r.keep {
+		if kind == evBS && st != nil {
+			r.states = append(r.states, cloneState(st))
+		} else {
+			r.states = append(r.states, nil)
+		}
+	}
 	if r.mode.apply(kind, st) {
 		r.scribbled++
 	}
@@ -307,6 +341,28 @@ func sameEvent(a, b *event) bool {
 		return false
 	}
 	return a.st == nil || a.st.key == b.st.key
+}
+
+// diffHistoriesLoose is diffHistories with push payloads inside Scripts left out of the comparison.
+func diffHistoriesLoose(a, b []event) string {
+	aa, bb := make([]event, len(a)), make([]event, len(b))
+	for i := range a {
+		aa[i] = a[i]
+		if a[i].st != nil {
+			cp := *a[i].st
+			cp.key = cp.skey
+			aa[i].st = &cp
+		}
+	}
+	for i := range b {
+		bb[i] = b[i]
+		if b[i].st != nil {
+			cp := *b[i].st
+			cp.key = cp.skey
+			bb[i].st = &cp
+		}
+	}
+	return diffHistories(aa, bb)
 }
 
 // diffHistories returns "" when equal, else a description of the first difference.
